@@ -1,5 +1,9 @@
 #!/bin/bash
-# MANIFEST.setup_cmd: build the library variants (hooks on) from /repo's working tree. Offline.
+# MANIFEST.setup_cmd: build the three library variants (hooks on) from /repo's working tree. Offline.
+#   asan : ASan+UBSan, used by the in-process replayers
+#   fast : -O2, used where kernels are JIT-compiled / processes spawned in bulk
+#   tsan : ENABLE_SHARABLE_DEVICE + ThreadSanitizer, used by C30
+# Every check re-runs the (incremental, flock-protected) build it needs, so this is only a warm-up.
 set -uo pipefail
 cd "$(dirname "$0")/.."
 rc=0
@@ -7,4 +11,5 @@ tools/build.sh asan >/dev/null & p1=$!
 tools/build.sh fast >/dev/null & p2=$!
 wait $p1 || rc=2
 wait $p2 || rc=2
+tools/build.sh tsan >/dev/null || rc=2
 exit $rc
